@@ -298,6 +298,19 @@ auto make_step_iterator_impl(I const& it, std::ptrdiff_t step, std::true_type)
     return make_step_iterator(it.base(), step);
 }
 
+// If the iterator is a dereference_iterator_adaptor, put the step in its base and KEEP its dereference function object
+// (converting the stepped base back to the adaptor would default-construct the function object and lose its state)
+template <typename It, typename DFn>
+auto make_step_iterator_impl(
+    dereference_iterator_adaptor<It, DFn> const& it,
+    std::ptrdiff_t step,
+    std::true_type)
+    -> typename dynamic_x_step_type<dereference_iterator_adaptor<It, DFn>>::type
+{
+    using result_t = typename dynamic_x_step_type<dereference_iterator_adaptor<It, DFn>>::type;
+    return result_t(make_step_iterator(it.base(), step), it.deref_fn());
+}
+
 // If the iterator is memory_based_step_iterator, change the step
 template <typename BaseIt>
 auto make_step_iterator_impl(
